@@ -236,6 +236,11 @@ ShapeClass(name) ==
     [] name = "list-in-list" ->           \* mechanisms.authenticators[i].config.assertions.audience[j]
          << <<"m", "l", "0", "a">>, <<"m", "l", "0", "c", "s", "0">>, <<"m", "l", "0", "c", "s", "1">>,
             <<"m", "l", "1", "a">>, <<"m", "l", "1", "c", "s", "0">>, <<"b_c">> >>
+    [] name = "long-list" ->              \* a list with more than ten elements: indices of two digits (generation only)
+         << <<"m", "n", "l_s", "0">>, <<"m", "n", "l_s", "1">>, <<"m", "n", "l_s", "2">>, <<"m", "n", "l_s", "3">>,
+            <<"m", "n", "l_s", "4">>, <<"m", "n", "l_s", "5">>, <<"m", "n", "l_s", "6">>, <<"m", "n", "l_s", "7">>,
+            <<"m", "n", "l_s", "8">>, <<"m", "n", "l_s", "9">>, <<"m", "n", "l_s", "10">>, <<"m", "n", "l_s", "11">>,
+            <<"m", "n", "a">> >>
     [] name = "free-object-lists" ->      \* default_rule.{backtracking_enabled, execute[i].*, on_error[i].*}
          << <<"d_r", "b_e">>, <<"d_r", "x", "0", "a">>, <<"d_r", "x", "0", "c", "s">>, <<"d_r", "x", "1", "z">>,
             <<"d_r", "x", "2", "f">>, <<"d_r", "o_e", "0", "e_h">> >>
